@@ -7,9 +7,15 @@
   entries, every hash tree, every feature word.  That the Go reader computes what the mirror
   computes is checked on every run by the correspondence (hooks on reference images and on
   synthetic inputs); that whole images read back equal to the host tree is the engine's oracle.
+
+  Second part (below the facts): File.Read over a flat extent list WITH holes as file.go is now
+  (read_sparse_*), group descriptor decoding and inode addressing (gd_*, inode_*), and the extended
+  attribute entry table (xattr_*).
 -/
 import DiskfsModel.Proofs.Ext4Reader
 import DiskfsModel.Model.Ext4.ReaderCfg
+import DiskfsModel.Proofs.Ext4SparseRead
+import DiskfsModel.Proofs.Ext4Xattr
 namespace Diskfs.Ext4.Reader.C20
 
 /-- Flattening (extentBlockFinder.blocks: concatenate the leaves, children in order, interior
@@ -152,6 +158,14 @@ theorem facts_agree_cfg :
     Cfg.current.gateRequiresExtents = Cfg.current.gateRefusesInlineData := by
   decide
 
+/-- File.Read, groupDescriptorFromBytes and readInodeRaw still have the shape the second part mirrors:
+    skip test `<=`, holes cleared in two places, high halves read exactly for 64-byte descriptors,
+    group by division and slot by remainder of (n-1), slot offset computed in 32 bits -/
+theorem facts_agree_read_addressing :
+    Ext4Ref.readSkipLe = true ∧ Ext4Ref.readClears = 2 ∧ Ext4Ref.gdWideSize = 64 ∧
+    Ext4Ref.inodeGroupByDiv = true ∧ Ext4Ref.inodeSlotByMod = true ∧ Ext4Ref.inodeSlotOffsetWidth = 32 := by
+  decide
+
 /-! non-vacuity -/
 def exLeafA : TreeD 0 := ([⟨0, 100, 2⟩, ⟨4, 200, 1⟩] : List Extent)
 def exLeafB : TreeD 0 := ([⟨8, 300, 4⟩] : List Extent)
@@ -166,5 +180,371 @@ example : mirrorBlocks 2 exTree = [⟨0, 100, 2⟩, ⟨4, 200, 1⟩, ⟨8, 300, 
 example : EntWF Cfg.asFound (⟨12, 1, [97, 98]⟩, 12) := by simp [EntWF, Cfg.asFound]
 example : parseEntries Cfg.asFound 3 (encEntries [(⟨12, 1, [97, 98]⟩, 12), (⟨0, 0, []⟩, 20)]) =
     .ok [⟨12, 1, [97, 98]⟩, ⟨0, 0, []⟩] := by decide
+
+/-! ### File.Read over a flat extent list with holes (file.go as it is now) -/
+
+/-- read_sparse_spec: for every device content, block size, SORTED NON-OVERLAPPING extent list
+    (holes allowed in front, between and behind extents), file size, handle offset and buffer length,
+    File.Read returns exactly the bytes of the logical file at the offset — the device byte of a
+    mapped block, zero in a hole — clipped to the file size; it advances the offset by that many
+    bytes, reports io.EOF exactly when the offset reaches the size, and neither panics nor fails. -/
+theorem read_sparse_spec (dev : Dev) (devSize bs : Nat) (es : List Extent) (size off n : Nat)
+    (hbs : 0 < bs) (hs : SortedExts es) (hd : ExtsOnDev bs devSize es) :
+    ∃ r, sparseRead dev devSize bs es size off n = .ok r ∧
+      r.data = window (logicalByte dev bs es) off (min n (size - off)) ∧
+      r.off = off + r.data.length ∧ (r.eof = true ↔ size ≤ r.off) := by
+  unfold sparseRead
+  by_cases hge : off ≥ size
+  · rw [if_pos hge]
+    refine ⟨_, rfl, ?_, by simp, by simp; omega⟩
+    have : min n (size - off) = 0 := by omega
+    simp [this, window_zero]
+  · rw [if_neg hge]
+    simp only []
+    generalize hw : (if off + n > size then size - off else n) = want
+    have hwant : want = min n (size - off) := by rw [← hw]; split <;> omega
+    obtain ⟨st, hst, hoff, hgot, hlen, hrest⟩ :=
+      sparseLoop_spec dev devSize bs off want hbs es hs hd es [] ⟨off, [], []⟩ rfl (by simp)
+        (by simp [window_zero]) (by simp) (by simp)
+        (fun e _ hns => (Nat.div_lt_iff_lt_mul hbs).1 (Nat.lt_of_not_le hns))
+    rw [hst]
+    simp only []
+    by_cases hpad : st.got.length < want
+    · rw [if_pos hpad]
+      have hall := hrest hpad
+      have hdata : st.got ++ zeros (want - st.got.length) = window (logicalByte dev bs es) off want := by
+        have hsplit := window_add (logicalByte dev bs es) off st.got.length (want - st.got.length)
+        rw [show st.got.length + (want - st.got.length) = want by omega] at hsplit
+        rw [hsplit, ← hgot]
+        congr 1
+        apply zeros_eq_window
+        intro i _
+        apply logicalByte_hole
+        intro a ha
+        have h1 := hall a ha
+        have : a.fileBlock + a.count ≤ (off + st.got.length + i) / bs :=
+          (Nat.le_div_iff_mul_le hbs).2 (by omega)
+        omega
+      refine ⟨_, rfl, ?_, ?_, ?_⟩
+      · simp only; rw [hdata, hwant]
+      · simp only [List.length_append, zeros_length]; omega
+      · simp only [decide_eq_true_eq]
+    · rw [if_neg hpad]
+      have : st.got.length = want := by omega
+      refine ⟨_, rfl, ?_, ?_, ?_⟩
+      · simp only; rw [hgot, this, hwant]
+      · simp only; exact hoff
+      · simp only [decide_eq_true_eq]
+
+/-- File.Read never panics and never fails on such a list -/
+theorem read_sparse_no_panic (dev : Dev) (devSize bs : Nat) (es : List Extent) (size off n : Nat)
+    (hbs : 0 < bs) (hs : SortedExts es) (hd : ExtsOnDev bs devSize es) :
+    (∀ o, sparseRead dev devSize bs es size off n ≠ .panic o) ∧
+    ∀ k o, sparseRead dev devSize bs es size off n ≠ .ioerr k o := by
+  obtain ⟨r, hr, _⟩ := read_sparse_spec dev devSize bs es size off n hbs hs hd
+  rw [hr]
+  exact ⟨fun _ h => (by cases h), fun _ _ h => (by cases h)⟩
+
+/-- any sequence of Read calls on one handle (buffers of any lengths, zero included) returns, joined
+    together, the logical file from the starting offset on, clipped to the file size -/
+theorem read_sparse_seq (dev : Dev) (devSize bs : Nat) (es : List Extent) (size : Nat)
+    (hbs : 0 < bs) (hs : SortedExts es) (hd : ExtsOnDev bs devSize es) :
+    ∀ (ns : List Nat) (off : Nat), readSeq dev devSize bs es size ns off =
+      some (window (logicalByte dev bs es) off (min ns.sum (size - off)), off + min ns.sum (size - off)) := by
+  intro ns
+  induction ns with
+  | nil => intro off; simp [readSeq, window_zero]
+  | cons n ns ih =>
+    intro off
+    obtain ⟨r, hr, hdata, hoff, _⟩ := read_sparse_spec dev devSize bs es size off n hbs hs hd
+    have hlen : r.data.length = min n (size - off) := by rw [hdata]; simp
+    rw [readSeq, hr]
+    simp only []
+    rw [ih r.off]
+    simp only [Option.some.injEq, Prod.mk.injEq, List.sum_cons]
+    rw [hoff, hlen, hdata]
+    have hk : min (n + ns.sum) (size - off) =
+        min n (size - off) + min ns.sum (size - (off + min n (size - off))) := by omega
+    constructor
+    · rw [hk, window_add]
+    · omega
+
+/-- a caller that reads with a non-empty buffer until io.EOF (io.ReadAll, io.Copy, fs.ReadFile)
+    terminates with exactly the logical file from its offset to the end — from offset 0 the whole
+    file, every hole as zeros -/
+theorem read_sparse_until_eof (dev : Dev) (devSize bs : Nat) (es : List Extent) (size chunk : Nat)
+    (hbs : 0 < bs) (hc : 0 < chunk) (hs : SortedExts es) (hd : ExtsOnDev bs devSize es) :
+    ∀ (fuel off : Nat) (acc : Bytes), size - off < fuel →
+      readUntilEof dev devSize bs es size chunk fuel off acc =
+        some (acc ++ window (logicalByte dev bs es) off (size - off)) := by
+  intro fuel
+  induction fuel with
+  | zero => intro off acc h; omega
+  | succ f ih =>
+    intro off acc hf
+    obtain ⟨r, hr, hdata, hoff, heof⟩ := read_sparse_spec dev devSize bs es size off chunk hbs hs hd
+    have hlen : r.data.length = min chunk (size - off) := by rw [hdata]; simp
+    rw [readUntilEof, hr]
+    simp only []
+    by_cases he : r.eof = true
+    · rw [if_pos he]
+      have : size ≤ r.off := heof.1 he
+      have hk : min chunk (size - off) = size - off := by omega
+      rw [hdata, hk]
+    · rw [if_neg he]
+      have hlt : ¬ size ≤ r.off := fun h => he (heof.2 h)
+      rw [ih r.off (acc ++ r.data) (by omega)]
+      have hk : size - off = min chunk (size - off) + (size - r.off) := by omega
+      rw [hk, window_add, hdata, hoff, hlen, List.append_assoc]
+
+/-- the logical file is the one `hole_reads_zero` / `mapped_reads_device` speak about -/
+theorem logicalByte_fileByte (dev : Dev) (bs size : Nat) (es : List Extent) (p : Nat) (hp : p < size) :
+    fileByte (leafLookup es) dev bs size p = some (logicalByte dev bs es p) := by
+  unfold fileByte logicalByte
+  rw [if_pos hp]
+  cases leafLookup es (p / bs) <;> rfl
+
+/-- Read through a whole extent TREE: when the flattened list of a well-formed tree of any depth is
+    sorted, byte `i` of what Read returns is the device byte of the block a search of the tree from
+    the root designates for position `off+i`, or zero when the tree maps nothing there. -/
+theorem read_tree_spec (d : Nat) (t : TreeD d) (lo hi : Nat) (h : TreeWF d t lo hi)
+    (dev : Dev) (devSize bs size off n : Nat) (hbs : 0 < bs)
+    (hs : SortedExts (mirrorBlocks d t)) (hd : ExtsOnDev bs devSize (mirrorBlocks d t)) :
+    ∃ r, sparseRead dev devSize bs (mirrorBlocks d t) size off n = .ok r ∧
+      r.data.length = min n (size - off) ∧
+      ∀ i, i < r.data.length → r.data.getD i 0 =
+        (match specLookup d t ((off + i) / bs) with
+         | some phys => dev (phys * bs + (off + i) % bs)
+         | none => 0) := by
+  obtain ⟨r, hr, hdata, _, _⟩ := read_sparse_spec dev devSize bs (mirrorBlocks d t) size off n hbs hs hd
+  refine ⟨r, hr, by rw [hdata]; simp, ?_⟩
+  intro i hlt
+  rw [hdata] at hlt ⊢
+  simp only [window_length] at hlt
+  simp only [window, List.getD_eq_getElem?_getD, List.getElem?_map, List.getElem?_range hlt,
+    Option.map_some, Option.getD_some]
+  unfold logicalByte
+  rw [extent_tree_flatten d t lo hi h]
+  cases specLookup d t ((off + i) / bs) <;> rfl
+
+/-! ### unwritten (preallocated) extents -/
+
+/-- repaired behaviour: whatever `inode.extents.blocks` hands to File.Read, readFileBytes or Remove
+    contains no unwritten extent — a file that has one is refused with an error -/
+theorem unwritten_refused (rd : Nat → Option Bytes) (fuel : Nat) (root : Bytes) (es : List Extent)
+    (h : flattenC true rd fuel root = .ok es) : ∀ e ∈ es, e.count ≤ 32768 := by
+  unfold flattenC at h
+  split at h
+  · rename_i es' _
+    split at h
+    · cases h
+    · rename_i hany
+      simp only [Res.ok.injEq] at h
+      subst h
+      intro e he
+      simp only [Bool.true_and, Bool.not_eq_true, List.any_eq_false] at hany
+      have := hany e he
+      simpa [Extent.unwritten] using this
+  · cases h
+  · cases h
+  · cases h
+
+set_option maxRecDepth 8192 in
+/-- as found: an extent of 8 unwritten blocks (length field 32768+8) behind two data blocks is mapped as
+    data — Read returns the device bytes of the reserved blocks (here 7) where the file reads as zeros -/
+theorem cex_unwritten_read_as_data :
+    flattenC false (fun _ => none) 1 (leEnc 2 0xf30a ++ leEnc 2 2 ++ leEnc 2 4 ++ leEnc 2 0 ++ leEnc 4 0 ++
+        (leEnc 4 0 ++ leEnc 2 2 ++ leEnc 2 0 ++ leEnc 4 10) ++ (leEnc 4 2 ++ leEnc 2 32776 ++ leEnc 2 0 ++ leEnc 4 20) ++
+        zeros 24) = .ok [⟨0, 10, 2⟩, ⟨2, 20, 32776⟩] ∧
+    sparseRead (fun _ => 7) 1000 4 [⟨0, 10, 2⟩, ⟨2, 20, 32776⟩] 16 8 4 = .ok ⟨[7, 7, 7, 7], 12, false, [(80, 4)]⟩ ∧
+    flattenC true (fun _ => none) 1 (leEnc 2 0xf30a ++ leEnc 2 2 ++ leEnc 2 4 ++ leEnc 2 0 ++ leEnc 4 0 ++
+        (leEnc 4 0 ++ leEnc 2 2 ++ leEnc 2 0 ++ leEnc 4 10) ++ (leEnc 4 2 ++ leEnc 2 32776 ++ leEnc 2 0 ++ leEnc 4 20) ++
+        zeros 24) = .err := by
+  decide
+
+/-- the mirror follows the tree: refusal of unwritten extents is read from extent.go on every run -/
+theorem facts_agree_unwritten : refuseUnwrittenCurrent = Ext4Ref.extentRefusesUnwritten := rfl
+
+/-! non-vacuity: a file with a leading hole, a hole between extents and a trailing hole -/
+def exSparse : List Extent := [⟨2, 10, 1⟩, ⟨5, 20, 2⟩]
+example : SortedExts exSparse := by simp [exSparse, SortedExts]
+example : ExtsOnDev 4 100 exSparse := by simp [exSparse, ExtsOnDev]
+example : sparseRead (fun i => UInt8.ofNat i) 100 4 exSparse 34 6 30 =
+    .ok ⟨[0, 0, 40, 41, 42, 43, 0, 0, 0, 0, 0, 0, 0, 0, 80, 81, 82, 83, 84, 85, 86, 87, 0, 0, 0, 0, 0, 0],
+      34, true, [(40, 4), (80, 8)]⟩ := by decide
+example : readUntilEof (fun i => UInt8.ofNat i) 100 4 exSparse 13 5 4 0 [] =
+    some [0, 0, 0, 0, 0, 0, 0, 0, 40, 41, 42, 43, 0] := by decide
+
+/-! ### group descriptors and inode addressing (groupdescriptors.go, ext4.go readInodeRaw) -/
+
+/-- a 64-byte descriptor: every field is recovered from its low half in the first 32 bytes and its
+    high half behind them (block numbers to 64 bits, counters and bitmap checksums to 32 bits),
+    whatever the checksum and reserved words hold and whatever follows the descriptor -/
+theorem gd_decode_wide (v : GdInfo) (csum rsv : Nat) (tail : Bytes) (h : GdWF64 v) :
+    gdDecode (gdEncode v csum rsv ++ tail) 64 = v :=
+  gdDecode_wide v csum rsv tail h
+
+/-- any other descriptor size (32 without the 64bit feature): the reader takes the low halves only,
+    the bytes behind the first 32 play no role -/
+theorem gd_decode_narrow (v : GdInfo) (csum rsv : Nat) (tail : Bytes) (gdSize : Nat) (hg : gdSize ≠ 64) :
+    gdDecode (gdEncode v csum rsv ++ tail) gdSize = gdLow v :=
+  gdDecode_narrow v csum rsv tail gdSize hg
+
+/-- groupDescriptorsFromBytes over a table of 64-byte descriptors returns every descriptor's values -/
+theorem gdt_decode_roundtrip (vs : List (GdInfo × Nat × Nat)) (h : ∀ p ∈ vs, GdWF64 p.1) :
+    gdtDecode (gdtEncode vs) 64 = some (vs.map (·.1)) := by
+  unfold gdtDecode
+  rw [if_neg (by decide), gdtEncode_length, Nat.mul_div_cancel_left _ (by decide : 0 < 64)]
+  congr 1
+  apply List.ext_getElem
+  · simp
+  · intro i h1 h2
+    simp only [List.length_map, List.length_range] at h1
+    simp only [List.getElem_map, List.getElem_range]
+    rw [gdtEncode_slice vs i h1]
+    have := gdDecode_wide vs[i].1 vs[i].2.1 vs[i].2.2 [] (h _ (List.getElem_mem h1))
+    rw [List.append_nil] at this
+    exact this
+
+/-- readInodeRaw: a valid inode number n (1 ≤ n ≤ groups × inodesPerGroup) is read from
+    table(group) × blockSize + index × inodeSize with group = (n−1) / inodesPerGroup and
+    index = (n−1) mod inodesPerGroup — inside the table of its own group -/
+theorem inode_location (g : InoGeo) (tables : List Nat) (h : TablesWF g tables) (n : Nat)
+    (h1 : 1 ≤ n) (h2 : n ≤ tables.length * g.inodesPerGroup) :
+    inodeLoc g tables n = some (tables.getD ((n - 1) / g.inodesPerGroup) 0 * g.blockSize +
+      (n - 1) % g.inodesPerGroup * g.inodeSize, g.inodeSize) ∧
+    (n - 1) % g.inodesPerGroup * g.inodeSize + g.inodeSize ≤ g.inodesPerGroup * g.inodeSize :=
+  ⟨(inodeLoc_valid g tables h n h1 h2).2.1, (inodeLoc_valid g tables h n h1 h2).2.2⟩
+
+/-- distinct inode numbers are read from disjoint byte ranges of the inode tables -/
+theorem inode_ranges_disjoint (g : InoGeo) (tables : List Nat) (h : TablesWF g tables) (n m : Nat)
+    (hn1 : 1 ≤ n) (hn2 : n ≤ tables.length * g.inodesPerGroup)
+    (hm1 : 1 ≤ m) (hm2 : m ≤ tables.length * g.inodesPerGroup) (hne : n ≠ m) :
+    ∃ on om, inodeLoc g tables n = some (on, g.inodeSize) ∧ inodeLoc g tables m = some (om, g.inodeSize) ∧
+      (on + g.inodeSize ≤ om ∨ om + g.inodeSize ≤ on) :=
+  inodeLoc_disjoint g tables h n m hn1 hn2 hm1 hm2 hne
+
+/-- inode 0 and numbers beyond the last group are refused (no read is issued) -/
+theorem inode_number_refused (g : InoGeo) (tables : List Nat) (n : Nat)
+    (h : n = 0 ∨ g.inodesPerGroup = 0 ∨ tables.length * g.inodesPerGroup < n) : inodeLoc g tables n = none :=
+  inodeLoc_refused g tables n h
+
+/-- from the raw descriptor table to the device read: with 64-byte descriptors holding the values
+    `vs`, inode n is read at (inode table of its group, both halves) × blockSize + index × inodeSize -/
+theorem inode_raw_from_gdt (g : InoGeo) (vs : List (GdInfo × Nat × Nat)) (hw : ∀ p ∈ vs, GdWF64 p.1)
+    (h : TablesWF g (vs.map (·.1.inodeTable))) (devSize n : Nat)
+    (h1 : 1 ≤ n) (h2 : n ≤ vs.length * g.inodesPerGroup)
+    (hdev : ∀ p ∈ vs, p.1.inodeTable * g.blockSize + g.inodesPerGroup * g.inodeSize ≤ devSize) :
+    inodeRawLoc g (gdtEncode vs) 64 devSize n =
+      some (((vs.map (·.1.inodeTable)).getD ((n - 1) / g.inodesPerGroup) 0) * g.blockSize +
+        (n - 1) % g.inodesPerGroup * g.inodeSize, g.inodeSize) := by
+  have hl : (vs.map (·.1.inodeTable)).length = vs.length := by simp
+  obtain ⟨hbg, hloc, hin⟩ := inodeLoc_valid g _ h n h1 (by rw [hl]; exact h2)
+  unfold inodeRawLoc
+  rw [gdt_decode_roundtrip vs hw]
+  simp only [List.map_map]
+  have hm : (List.map ((fun x => x.inodeTable) ∘ fun x => x.1) vs) = vs.map (·.1.inodeTable) := rfl
+  rw [hm, hloc]
+  simp only []
+  rw [hl] at hbg
+  have hmem : vs[(n - 1) / g.inodesPerGroup] ∈ vs := List.getElem_mem hbg
+  have hd := hdev _ hmem
+  have hget : (vs.map (·.1.inodeTable)).getD ((n - 1) / g.inodesPerGroup) 0 =
+      vs[(n - 1) / g.inodesPerGroup].1.inodeTable := by
+    simp [List.getD_eq_getElem?_getD, hbg]
+  rw [hget]
+  have hisz : 0 < g.inodeSize := h.2.1
+  rw [if_neg (by omega)]
+
+/-! ### extended attribute entries (xattr.go parseXattrEntries) -/
+
+/-- xattr_parse_roundtrip: parsing an encoded entry table — at any 4-aligned position `pre.length` of
+    the entries buffer, followed by a terminator or by fewer than 16 bytes — returns exactly what the
+    entries say, in order: full name = prefix of the index ++ name, value = the `size` bytes at `offs`
+    of the value buffer (a later entry with the same name replaces the earlier one; an empty value is
+    kept when the configuration keeps empty values).  No error, no panic, for every fuel above the
+    entry count. -/
+theorem xattr_parse_roundtrip (cfg : Cfg) (tbl : List (Nat × String)) (values : Bytes)
+    (xs : List XEnt) (pre tail : Bytes) (acc : List (Bytes × Bytes)) (fuel : Nat)
+    (hal : pre.length % 4 = 0) (hwf : ∀ x ∈ xs, XWF values x) (hf : xs.length < fuel) (ht : TermOK tail) :
+    parseXattrs cfg tbl (pre ++ encXTable xs ++ tail) values fuel pre.length acc =
+      .ok (xs.foldl (xaStep cfg tbl values) acc) :=
+  parseXattrs_enc cfg tbl values xs pre tail acc fuel hal hwf hf ht
+
+/-- in-inode variant (readIbodyXattrs: parseXattrEntries(data, data)): value offsets count from the
+    first entry, entries and values share one buffer -/
+theorem xattr_ibody_roundtrip (cfg : Cfg) (tbl : List (Nat × String)) (xs : List XEnt) (tail : Bytes)
+    (hwf : ∀ x ∈ xs, XWF (encXTable xs ++ tail) x) (ht : TermOK tail) :
+    parseXattrs cfg tbl (encXTable xs ++ tail) (encXTable xs ++ tail) (xs.length + 1) 0 [] =
+      .ok (xs.foldl (xaStep cfg tbl (encXTable xs ++ tail)) []) := by
+  have := parseXattrs_enc cfg tbl (encXTable xs ++ tail) xs [] tail [] (xs.length + 1) rfl hwf (by omega) ht
+  simpa using this
+
+/-- block variant (readBlockXattrs: parseXattrEntries(block[32:], block)): value offsets count from the
+    start of the block, i.e. from 32 bytes before the first entry -/
+theorem xattr_block_roundtrip (cfg : Cfg) (tbl : List (Nat × String)) (xs : List XEnt) (hdr tail : Bytes)
+    (hwf : ∀ x ∈ xs, XWF (hdr ++ (encXTable xs ++ tail)) x) (ht : TermOK tail) :
+    parseXattrs cfg tbl (encXTable xs ++ tail) (hdr ++ (encXTable xs ++ tail)) (xs.length + 1) 0 [] =
+      .ok (xs.foldl (xaStep cfg tbl (hdr ++ (encXTable xs ++ tail))) []) := by
+  have := parseXattrs_enc cfg tbl (hdr ++ (encXTable xs ++ tail)) xs [] tail [] (xs.length + 1) rfl hwf (by omega) ht
+  simpa using this
+
+/-- with pairwise distinct full names (and empty values kept, the repaired position of the switch)
+    the result lists every attribute exactly once, in table order -/
+theorem xattr_distinct_all_listed (cfg : Cfg) (hk : cfg.xattrKeepEmpty = true) (tbl : List (Nat × String))
+    (values : Bytes) (xs : List XEnt)
+    (hd : (xs.map fun x => xattrPrefix tbl x.idx ++ x.name).Nodup) :
+    xs.foldl (xaStep cfg tbl values) [] =
+      xs.map fun x => (xattrPrefix tbl x.idx ++ x.name, if x.size > 0 then slice values x.offs (x.offs + x.size) else []) := by
+  have key : ∀ (xs : List XEnt) (acc : List (Bytes × Bytes)),
+      (xs.map fun x => xattrPrefix tbl x.idx ++ x.name).Nodup →
+      (∀ x ∈ xs, ∀ p ∈ acc, p.1 ≠ xattrPrefix tbl x.idx ++ x.name) →
+      xs.foldl (xaStep cfg tbl values) acc = acc ++
+        xs.map fun x => (xattrPrefix tbl x.idx ++ x.name, if x.size > 0 then slice values x.offs (x.offs + x.size) else []) := by
+    intro xs
+    induction xs with
+    | nil => intro acc _ _; simp
+    | cons x rest ih =>
+      intro acc hnd hacc
+      simp only [List.map_cons, List.nodup_cons] at hnd
+      have hstep : xaStep cfg tbl values acc x = acc ++
+          [(xattrPrefix tbl x.idx ++ x.name, if x.size > 0 then slice values x.offs (x.offs + x.size) else [])] := by
+        have hfil : acc.filter (fun p => p.1 ≠ xattrPrefix tbl x.idx ++ x.name) = acc := by
+          rw [List.filter_eq_self]
+          intro p hp
+          simpa using hacc x (List.mem_cons_self ..) p hp
+        unfold xaStep xaInsert
+        split
+        · rw [hfil]
+        · rw [hfil]
+      rw [List.foldl_cons, hstep, ih _ hnd.2]
+      · simp
+      · intro y hy p hp
+        rcases List.mem_append.1 hp with h | h
+        · exact hacc y (List.mem_cons_of_mem _ hy) p h
+        · simp only [List.mem_singleton] at h
+          subst h
+          intro heq
+          exact hnd.1 (by simp only [List.mem_map]; exact ⟨y, hy, heq.symm⟩)
+  simpa using key xs [] hd (by simp)
+
+/-! non-vacuity -/
+def exGeo : InoGeo := ⟨1024, 256, 8⟩
+example : TablesWF exGeo [10, 40] := by
+  refine ⟨by decide, by decide, by decide, ?_, ?_⟩
+  · intro i hi
+    have : i = 0 ∨ i = 1 := by simp at hi; omega
+    rcases this with rfl | rfl <;> decide
+  · intro i j hij hj
+    have : i = 0 ∧ j = 1 := by simp at hj; omega
+    obtain ⟨rfl, rfl⟩ := this
+    decide
+example : inodeLoc exGeo [10, 40] 9 = some (40960, 256) := by decide
+example : inodeLoc exGeo [10, 40] 17 = none := by decide
+def exX : XEnt := ⟨1, [102, 111, 111], 40, 3, 0⟩
+def exXbuf : Bytes := encXTable [exX] ++ zeros 44
+example : XWF exXbuf exX := by simp [XWF, exX, exXbuf, encXTable, encXEnt_length, xPad]
+example : TermOK (zeros 44) := Or.inr ⟨by decide, by decide⟩
+
 
 end Diskfs.Ext4.Reader.C20
